@@ -1,5 +1,5 @@
 (* Props_C08.v — property C08: theorem statements only. *)
-From Verif Require Import Base Sem Where_Model Where_Proofs Where_Render Where_Sem C08_Hist C08_HistProofs.
+From Verif Require Import Base Sem Where_Model Where_Proofs Where_Render Where_Sem C08_Hist C08_HistProofs C08_Assoc C08_AssocProofs.
 
 (* Whatever conditions a chain supplies (any number of Where/Not/Or calls in any order, any
    form), the WHERE expressions of a soft-delete statement never contain an OR alternative at
@@ -97,3 +97,70 @@ Example c08_history_example :
   let ops := [ODelete (HOr (HIds [1]) (HIds [2])) 7; OFind HAll; OUFind HAll; ODelete HAll 8; OUDelete (HIds [1])] in
   hrun s0 ops = ([mk_hrow 2 0 (Some 5); mk_hrow 3 0 (Some 8)], [[1]; [3]; [1; 2; 3]; [1]; [1]]).
 Proof. vm_compute. reflexivity. Qed.
+
+(* ---- association paths (C08_Assoc: the functions the checker runs on the fixture of every third
+   case).  For every related table, parent key, caller condition and ON condition: ---- *)
+
+(* Preload / Association().Find / Count of a has-many relation without Unscoped return what any
+   lookup - scoped or not - returns on the table from which the marked rows were removed *)
+Theorem c08_assoc_children_as_if_absent : forall u c tbl p,
+  children false c tbl p = children u c (erase_a tbl) p
+  /\ child_count false c tbl p = child_count u c (erase_a tbl) p.
+Proof. intros; split; [apply children_erase | apply child_count_erase]. Qed.
+Print Assumptions c08_assoc_children_as_if_absent.
+
+(* none missing, none marked: exactly the live rows of that parent that satisfy the condition *)
+Theorem c08_assoc_children_exact : forall c tbl p,
+  (forall i, In i (children false c tbl p) ->
+     exists r, In r tbl /\ a_id r = i /\ alive r = true /\ a_fk r = p /\ c (a_val r) = true)
+  /\ (forall r, In r tbl -> alive r = true -> a_fk r = p -> c (a_val r) = true ->
+       In (a_id r) (children false c tbl p)).
+Proof. intros; split; [apply children_live | intros r; apply children_complete]. Qed.
+Print Assumptions c08_assoc_children_exact.
+
+(* Joins / InnerJoins / Preload of a soft-deletable belongs-to target: the same, whatever the ON
+   condition; a marked target is never joined *)
+Theorem c08_assoc_joins_as_if_absent : forall u on tbl src k,
+  target false on tbl k = target u on (erase_a tbl) k
+  /\ left_join false on tbl src = left_join u on (erase_a tbl) src
+  /\ inner_join false on tbl src = inner_join u on (erase_a tbl) src.
+Proof. intros; repeat split; [apply target_erase | apply left_join_erase | apply inner_join_erase]. Qed.
+Print Assumptions c08_assoc_joins_as_if_absent.
+
+Theorem c08_assoc_marked_target_never_joined : forall on tbl k i,
+  target false on tbl k = Some i ->
+  exists r, In r tbl /\ a_id r = i /\ i = k /\ alive r = true /\ on (a_val r) = true.
+Proof. exact target_live. Qed.
+Print Assumptions c08_assoc_marked_target_never_joined.
+
+(* the twin tables of the property's quantifier: every live row has a marked copy with identical
+   columns.  Without Unscoped every path reports what it reports without the copies; with Unscoped
+   a copy is reported exactly where its original is *)
+Theorem c08_assoc_twins : forall c on t s p k src, all_live s ->
+  children false c (s ++ map (twin t) s) p = children false c s p
+  /\ target false on (s ++ map (twin t) s) k = target false on s k
+  /\ left_join false on (s ++ map (twin t) s) src = left_join false on s src
+  /\ inner_join false on (s ++ map (twin t) s) src = inner_join false on s src
+  /\ children true c (s ++ map (twin t) s) p
+     = children true c s p ++ map (fun i => i + 100)%Z (children true c s p).
+Proof.
+  intros c on t s p k src H. repeat split.
+  - apply scoped_children_twins; exact H.
+  - apply scoped_target_twins; exact H.
+  - apply scoped_left_join_twins; exact H.
+  - apply scoped_inner_join_twins; exact H.
+  - apply unscoped_children_twins.
+Qed.
+Print Assumptions c08_assoc_twins.
+
+(* a source row that points at a marked copy has no target without Unscoped *)
+Theorem c08_assoc_pointer_to_marked : forall on t s k, all_live s -> (forall r, In r s -> a_id r <> k) ->
+  target false on (s ++ map (twin t) s) k = None.
+Proof. exact target_of_twin_scoped. Qed.
+Print Assumptions c08_assoc_pointer_to_marked.
+
+Example c08_assoc_nonvacuous :
+  scoped_paths true [(1, 0); (2, 3); (4, 5)] = scoped_paths false [(1, 0); (2, 3); (4, 5)]
+  /\ nth 0 (unscoped_paths true [(1, 0); (2, 3)]) [] = [1; 2; 3; 101; 102; 103]%Z
+  /\ nth 3 (unscoped_paths true [(1, 0); (2, 3)]) [] = [1; 101]%Z.
+Proof. repeat split. Qed.
